@@ -19,8 +19,9 @@ from typing import Any, Callable, Dict, Iterable, Iterator, List, Optional, Sequ
 
 VERIF = Path(__file__).resolve().parent.parent
 SPEC = VERIF / "spec"
-EVIDENCE = VERIF / "evidence"
-REPLAY = VERIF / "replay"
+# (the seeded-change matrix redirects outputs so that runs against modified copies never touch the committed evidence)
+EVIDENCE = Path(os.environ.get("VERIF_OUT_DIR", str(VERIF))) / "evidence"
+REPLAY = Path(os.environ.get("VERIF_OUT_DIR", str(VERIF))) / "replay"
 REPO = Path(os.environ.get("VERIF_REPO", "/repo"))
 GUARD = "PYJSONPATH_VERIF"
 
